@@ -1,8 +1,6 @@
 (* C03 — round trip: otto's precedence ladder (Model.parse) applied to the
    rendering (Spec.print) of any well-formed expression tree, with any amount of
-   redundant parentheses, returns the tree the grammar assigns (Spec.strip) —
-   outside the one region where it does not (relational chains, see
-   [norel]). *)
+   redundant parentheses, returns the tree the grammar assigns (Spec.strip). *)
 From Coq Require Import List Bool Arith ZArith Lia.
 From Otto Require Import C03.Spec C03.Model.
 Import ListNotations.
@@ -48,14 +46,14 @@ Definition starts_rp (ts : list ptok) : bool :=
   match ts with (_, TRP) :: _ => true | _ => false end.
 
 Definition looplvl (k : nat) : Prop :=
-  k = 0 \/ k = 3 \/ k = 4 \/ k = 5 \/ k = 6 \/ k = 7 \/ k = 8 \/ k = 10 \/ k = 11 \/ k = 12.
+  k = 0 \/ k = 3 \/ k = 4 \/ k = 5 \/ k = 6 \/ k = 7 \/ k = 8 \/ k = 9 \/ k = 10 \/ k = 11 \/ k = 12.
 
 Lemma looplvl_kind k : looplvl k -> kind_of k = KLoop.
 Proof. intros H. repeat (destruct H as [->|H]; [reflexivity|]). subst; reflexivity. Qed.
 
 Lemma bin_loop_stops n k next left rest :
   stops (S k) rest = true \/ stops k rest = true -> stops k rest = true ->
-  bin_loop (S n) k next left rest = Some (left, rest).
+  bin_loop (S n) k false next left rest = Some (left, rest).
 Proof.
   intros _ H. simpl. destruct rest as [|[nl t] r]; try reflexivity. destruct t; try reflexivity.
   simpl in H. apply Nat.ltb_lt in H. destruct (Nat.eqb (lvl o) k) eqn:E; [|reflexivity].
@@ -76,18 +74,14 @@ Lemma lift1 q ts e rest :
   ok (S q) ts (e, rest) -> ok q ts (e, rest).
 Proof.
   intros Hq Hst Hun Hnw [f0 H]. apply ok_of_step. exists f0. intros f Hf. specialize (H f Hf).
-  assert (Hc : looplvl q \/ q = 1 \/ q = 2 \/ q = 9 \/ q = 13 \/ q = 14 \/ q = 15 \/ q = 16)
+  assert (Hc : looplvl q \/ q = 1 \/ q = 2 \/ q = 13 \/ q = 14 \/ q = 15 \/ q = 16)
     by (unfold looplvl; lia).
-  destruct Hc as [Hl|[->|[->|[->|[->|[->|[->| ->]]]]]]].
+  destruct Hc as [Hl|[->|[->|[->|[->|[->| ->]]]]]].
   - unfold step. rewrite (looplvl_kind _ Hl). rewrite H. apply bin_loop_stops; auto.
   - unfold step; cbn [kind_of]. rewrite H.
     destruct rest as [|[nl t] r]; try reflexivity. destruct t; try reflexivity. discriminate.
   - unfold step; cbn [kind_of]. rewrite H.
     destruct rest as [|[nl t] r]; try reflexivity. destruct t; try reflexivity. discriminate.
-  - unfold step; cbn [kind_of]. rewrite H.
-    destruct rest as [|[nl t] r]; try reflexivity. destruct t; try reflexivity.
-    simpl in Hst. apply Nat.ltb_lt in Hst.
-    destruct (Nat.eqb (lvl o) 9) eqn:E; [apply Nat.eqb_eq in E; lia|reflexivity].
   - unfold step; cbn [kind_of]. specialize (Hun eq_refl).
     destruct ts as [|[nl t] r]; [exact H|]. simpl in Hun.
     destruct (unop_of_tok t); [discriminate|exact H].
@@ -197,7 +191,7 @@ Definition Main e := forall q p rest, q <= p -> p <= 17 -> stops q rest = true -
   ok q (print p e ++ rest) (strip e, rest).
 Definition LoopAt e k := forall rest, stops (S k) rest = true ->
   exists f0, forall f, f0 <= f -> exists n, S (length rest) <= n /\
-    step (parse f) k false (print k e ++ rest) = bin_loop n k (parse f (S k) false) (strip e) rest.
+    step (parse f) k false (print k e ++ rest) = bin_loop n k false (parse f (S k) false) (strip e) rest.
 Definition Loop e := forall k, looplvl k -> LoopAt e k.
 Definition Chain15 e := forall rest, prec e = 15 \/ stops 16 rest = true ->
   exists f0, forall f, f0 <= f -> exists n, S (length rest) <= n /\
@@ -288,10 +282,10 @@ Proof.
   destruct n as [|n]; [simpl in Hn; lia|].
   exists n. split.
   - simpl in Hn. rewrite app_length in Hn. lia.
-  - cbn [bin_loop]. subst k. rewrite Nat.eqb_refl. rewrite (H2 f ltac:(lia)). reflexivity.
+  - cbn [bin_loop andb]. subst k. rewrite Nat.eqb_refl. rewrite (H2 f ltac:(lia)). reflexivity.
 Qed.
 
-Lemma looplvl_dec o : looplvl (lvl o) \/ lvl o = 9.
+Lemma looplvl_lvl o : looplvl (lvl o).
 Proof. destruct o; unfold looplvl; simpl; auto 12. Qed.
 
 Lemma args_loop_cons n next ts :
@@ -348,11 +342,11 @@ Proof.
 Qed.
 
 Lemma Forall_wf (P : expr -> Prop) args :
-  Forall (fun e => wf e = true -> norel e = true -> P e) args ->
-  forallb wf args = true -> forallb norel args = true -> Forall P args.
+  Forall (fun e => wf e = true -> P e) args ->
+  forallb wf args = true -> Forall P args.
 Proof.
-  induction 1 as [|a l Ha Hl IH]; intros Hw Hn; constructor; simpl in *;
-    apply andb_true_iff in Hw as [? ?]; apply andb_true_iff in Hn as [? ?]; auto.
+  induction 1 as [|a l Ha Hl IH]; intros Hw; constructor; simpl in *;
+    apply andb_true_iff in Hw as [? ?]; auto.
 Qed.
 
 Lemma nat_of_chain15 e : prec e = 15 -> Chain15 e -> NatP e.
@@ -393,14 +387,14 @@ Qed.
 
 Lemma prec_chain e : prec e = 15 -> 15 <= prec e. Proof. lia. Qed.
 
-Theorem roundtrip_all : forall e, wf e = true -> norel e = true -> All e.
+Theorem roundtrip_all : forall e, wf e = true -> All e.
 Proof.
-  induction e using expr_rect'; intros Hw Hn.
+  induction e using expr_rect'; intros Hw.
   - (* EAtom *)
     apply all_of_nat; simpl; try lia; [|unfold looplvl; lia].
     intros rest Hst; unfold NatP; simpl prec in *. apply ok_of_step. exists 0. intros f _. reflexivity.
   - (* EParen *)
-    simpl in Hw, Hn. destruct (IHe Hw Hn) as [HM _].
+    simpl in Hw. destruct (IHe Hw) as [HM _].
     apply all_of_nat; simpl; try lia; [|unfold looplvl; lia].
     intros rest Hst; unfold NatP; simpl prec in *.
     destruct (HM 0 0 (T TRP :: rest) (le_n _) ltac:(lia) eq_refl) as [f0 H0].
@@ -409,45 +403,27 @@ Proof.
     simpl app. rewrite <- app_assoc. simpl app.
     unfold step; cbn [kind_of prec]. rewrite (H0 f Hf). reflexivity.
   - (* EBin *)
-    simpl in Hw, Hn. apply andb_true_iff in Hw as [Hwl Hwr].
-    apply andb_true_iff in Hn as [Hn Hnr]. apply andb_true_iff in Hn as [Hrel Hnl].
-    destruct (IHe1 Hwl Hnl) as (HMl & HLl & _). destruct (IHe2 Hwr Hnr) as (HMr & _).
-    destruct (looplvl_dec o) as [Hk|H9].
-    + pose proof (loop_own o e1 e2 Hk HLl HMr) as Hown.
-      assert (HN : NatP (EBin o e1 e2)).
-      { intros rest Hst. simpl prec in *.
-        destruct (Hown rest) as [f0 H0]. { eapply stops_ge; [|exact Hst]. lia. }
-        apply ok_of_step. exists f0. intros f Hf.
-        destruct (H0 f Hf) as [n' [Hn' E]].
-        rewrite <- (print_nopar (lvl o) (EBin o e1 e2)) by (simpl; lia).
-        rewrite E. destruct n' as [|n']; [lia|]. apply bin_loop_stops; auto. }
-      pose proof (main_of_nat _ HN) as HM. repeat split.
-      * exact HM.
-      * intros k Hk' rest Hst.
-        destruct (Nat.eq_dec (lvl o) k) as [<-|Hne]; [apply Hown; assumption|].
-        apply loop_of_main; assumption.
-      * apply chain15_of_main; auto. simpl. intros E. rewrite E in Hk. now apply (not_loop_15 15).
-      * apply chain16_of_main; auto. simpl. intros E. rewrite E in Hk. now apply (not_loop_16 16).
-    + (* relational: otto recurses on the right *)
-      rewrite H9 in Hrel. simpl in Hrel.
-      apply all_of_nat; simpl prec; try lia; [|intros k Hk; unfold looplvl in Hk; lia].
-      intros rest Hst; unfold NatP; simpl prec in *. rewrite H9 in Hst.
-      assert (Hpl : prec e1 <> 9).
-      { destruct e1; simpl in *; try lia.
-        - apply negb_true_iff in Hrel. apply Nat.eqb_neq in Hrel. exact Hrel.
-        - destruct (Nat.eqb (prec e1) 15); lia.
-        - destruct (Nat.eqb (prec e1_1) 15); lia. }
-      change (print 0 (EBin o e1 e2)) with (print (lvl o) e1 ++ T (TOp o) :: print (S (lvl o)) e2).
-      rewrite H9. rewrite (print_skip 9 e1 Hpl). rewrite <- !app_assoc. simpl app.
-      destruct (HMl 10 10 (T (TOp o) :: print 10 e2 ++ rest)) as [f1 H1]; try lia.
-      { simpl. rewrite H9. reflexivity. }
-      destruct (HMr 9 10 rest) as [f2 H2]; try lia; [assumption|].
-      apply ok_of_step. exists (Nat.max f1 f2). intros f Hf.
-      unfold step; cbn [kind_of]. rewrite (H1 f ltac:(lia)). rewrite H9. cbn [Nat.eqb andb negb].
-      rewrite (H2 f ltac:(lia)). reflexivity.
+    simpl in Hw. apply andb_true_iff in Hw as [Hwl Hwr].
+    destruct (IHe1 Hwl) as (HMl & HLl & _). destruct (IHe2 Hwr) as (HMr & _).
+    pose proof (looplvl_lvl o) as Hk.
+    pose proof (loop_own o e1 e2 Hk HLl HMr) as Hown.
+    assert (HN : NatP (EBin o e1 e2)).
+    { intros rest Hst. simpl prec in *.
+      destruct (Hown rest) as [f0 H0]. { eapply stops_ge; [|exact Hst]. lia. }
+      apply ok_of_step. exists f0. intros f Hf.
+      destruct (H0 f Hf) as [n' [Hn' E]].
+      rewrite <- (print_nopar (lvl o) (EBin o e1 e2)) by (simpl; lia).
+      rewrite E. destruct n' as [|n']; [lia|]. apply bin_loop_stops; auto. }
+    pose proof (main_of_nat _ HN) as HM. repeat split.
+    + exact HM.
+    + intros k Hk' rest Hst.
+      destruct (Nat.eq_dec (lvl o) k) as [<-|Hne]; [apply Hown; assumption|].
+      apply loop_of_main; assumption.
+    + apply chain15_of_main; auto. simpl. intros E. rewrite E in Hk. now apply (not_loop_15 15).
+    + apply chain16_of_main; auto. simpl. intros E. rewrite E in Hk. now apply (not_loop_16 16).
   - (* EUn *)
-    simpl in Hw, Hn. apply andb_true_iff in Hw as [Hr Hw].
-    destruct (IHe Hw Hn) as (HMe & _).
+    simpl in Hw. apply andb_true_iff in Hw as [Hr Hw].
+    destruct (IHe Hw) as (HMe & _).
     apply all_of_nat; simpl prec; try lia; [|intros k Hk; unfold looplvl in Hk; lia].
     intros rest Hst; unfold NatP; simpl prec in *.
     destruct (HMe 13 13 rest) as [f1 H1]; try lia; [assumption|].
@@ -457,8 +433,8 @@ Proof.
     destruct o; cbn [untok unop_of_tok is_incdec] in *; rewrite (H1 f Hf); try reflexivity;
       rewrite Hr; reflexivity.
   - (* EPost *)
-    simpl in Hw, Hn. apply andb_true_iff in Hw as [Hr Hw].
-    destruct (IHe Hw Hn) as (HMe & _).
+    simpl in Hw. apply andb_true_iff in Hw as [Hr Hw].
+    destruct (IHe Hw) as (HMe & _).
     apply all_of_nat; simpl prec; try lia; [|intros k Hk; unfold looplvl in Hk; lia].
     intros rest Hst; unfold NatP; simpl prec in *.
     change (print 0 (EPost i e)) with (print 15 e ++ [T (if i then TInc else TDec)]).
@@ -469,10 +445,9 @@ Proof.
     unfold step; cbn [kind_of]. rewrite (H1 f Hf).
     destruct i; rewrite Hr; reflexivity.
   - (* ECond *)
-    simpl in Hw, Hn. apply andb_true_iff in Hw as [Hw Hwb]. apply andb_true_iff in Hw as [Hwc Hwa].
-    apply andb_true_iff in Hn as [Hn Hnb]. apply andb_true_iff in Hn as [Hnc Hna].
-    destruct (IHe1 Hwc Hnc) as (HMc & _). destruct (IHe2 Hwa Hna) as (HMa & _).
-    destruct (IHe3 Hwb Hnb) as (HMb & _).
+    simpl in Hw. apply andb_true_iff in Hw as [Hw Hwb]. apply andb_true_iff in Hw as [Hwc Hwa].
+    destruct (IHe1 Hwc) as (HMc & _). destruct (IHe2 Hwa) as (HMa & _).
+    destruct (IHe3 Hwb) as (HMb & _).
     apply all_of_nat; simpl prec; try lia; [|intros k Hk; unfold looplvl in Hk; lia].
     intros rest Hst; unfold NatP; simpl prec in *.
     change (print 0 (ECond e1 e2 e3)) with (print 3 e1 ++ T TQ :: print 1 e2 ++ T TColon :: print 1 e3).
@@ -488,9 +463,8 @@ Proof.
     unfold step; cbn [kind_of]. rewrite (H1 f ltac:(lia)). rewrite (H2 f ltac:(lia)).
     rewrite (H3 f ltac:(lia)). reflexivity.
   - (* EAsg *)
-    simpl in Hw, Hn. apply andb_true_iff in Hw as [Hw Hwr]. apply andb_true_iff in Hw as [Hr Hwl].
-    apply andb_true_iff in Hn as [Hnl Hnr].
-    destruct (IHe1 Hwl Hnl) as (HMl & _). destruct (IHe2 Hwr Hnr) as (HMr & _).
+    simpl in Hw. apply andb_true_iff in Hw as [Hw Hwr]. apply andb_true_iff in Hw as [Hr Hwl].
+    destruct (IHe1 Hwl) as (HMl & _). destruct (IHe2 Hwr) as (HMr & _).
     apply all_of_nat; simpl prec; try lia; [|intros k Hk; unfold looplvl in Hk; lia].
     intros rest Hst; unfold NatP; simpl prec in *.
     change (print 0 (EAsg o e1 e2)) with (print 15 e1 ++ T (TAsg o) :: print 1 e2).
@@ -505,7 +479,7 @@ Proof.
     unfold step; cbn [kind_of]. rewrite E2. rewrite Hr.
     rewrite (H2 (S f) ltac:(lia)). reflexivity.
   - (* EDot *)
-    simpl in Hw, Hn. destruct (IHe Hw Hn) as (HMe & _ & HC15 & HC16).
+    simpl in Hw. destruct (IHe Hw) as (HMe & _ & HC15 & HC16).
     apply all_of_chain.
     + intros Hp. simpl in Hp. destruct (Nat.eqb (prec e) 15) eqn:E; [|discriminate].
       apply Nat.eqb_eq in E. intros rest _.
@@ -525,8 +499,8 @@ Proof.
       destruct n; [simpl in Hlen; lia|]. exists n. split; [simpl in Hlen; lia|]. reflexivity.
     + simpl. destruct (Nat.eqb (prec e) 15); auto.
   - (* EIdx *)
-    simpl in Hw, Hn. apply andb_true_iff in Hw as [Hw1 Hw2]. apply andb_true_iff in Hn as [Hn1 Hn2].
-    destruct (IHe1 Hw1 Hn1) as (HMe & _ & HC15 & HC16). destruct (IHe2 Hw2 Hn2) as (HMi & _).
+    simpl in Hw. apply andb_true_iff in Hw as [Hw1 Hw2].
+    destruct (IHe1 Hw1) as (HMe & _ & HC15 & HC16). destruct (IHe2 Hw2) as (HMi & _).
     apply all_of_chain.
     + intros Hp. simpl in Hp. destruct (Nat.eqb (prec e1) 15) eqn:E; [|discriminate].
       apply Nat.eqb_eq in E. intros rest _.
@@ -552,11 +526,11 @@ Proof.
       cbn [chain_loop]. rewrite (H1 f ltac:(lia)). reflexivity.
     + simpl. destruct (Nat.eqb (prec e1) 15); auto.
   - (* ECall *)
-    simpl in Hw, Hn. apply andb_true_iff in Hw as [Hwf Hwa]. apply andb_true_iff in Hn as [Hnf Hna].
-    destruct (IHe Hwf Hnf) as (HMf & _ & HC15 & _).
+    simpl in Hw. apply andb_true_iff in Hw as [Hwf Hwa].
+    destruct (IHe Hwf) as (HMf & _ & HC15 & _).
     assert (HA : Forall Main args).
     { apply (Forall_wf Main args); auto.
-      eapply Forall_impl; [|exact H]. intros a Ha W N. now destruct (Ha W N). }
+      eapply Forall_impl; [|exact H]. intros a Ha W. now destruct (Ha W). }
     apply all_of_chain; simpl prec; [|intros Hc; discriminate Hc|auto].
     intros _ rest _.
     rewrite print_nopar by (simpl; lia).
@@ -569,11 +543,11 @@ Proof.
     { simpl in Hlen. rewrite app_length in Hlen. simpl in Hlen. lia. }
     cbn [chain_loop]. rewrite (H1 f ltac:(lia)). reflexivity.
   - (* ENew *)
-    simpl in Hw, Hn. apply andb_true_iff in Hw as [Hwf Hwa]. apply andb_true_iff in Hn as [Hnf Hna].
-    destruct (IHe Hwf Hnf) as (HMf & _).
+    simpl in Hw. apply andb_true_iff in Hw as [Hwf Hwa].
+    destruct (IHe Hwf) as (HMf & _).
     assert (HA : Forall Main args).
     { apply (Forall_wf Main args); auto.
-      eapply Forall_impl; [|exact H]. intros a Ha W N. now destruct (Ha W N). }
+      eapply Forall_impl; [|exact H]. intros a Ha W. now destruct (Ha W). }
     apply all_of_chain; simpl prec; [intros Hc; discriminate Hc| |auto].
     intros _ rest.
     rewrite print_nopar by (simpl; lia).
@@ -590,10 +564,10 @@ Proof.
 Qed.
 
 (* Top level: a whole expression followed by end of input *)
-Corollary expr_roundtrip e : wf e = true -> norel e = true ->
+Corollary expr_roundtrip e : wf e = true ->
   exists f0, forall f, f0 <= f -> parse_expr f (print 0 e) = Some (strip e).
 Proof.
-  intros Hw Hn. destruct (roundtrip_all e Hw Hn) as [HM _].
+  intros Hw. destruct (roundtrip_all e Hw) as [HM _].
   destruct (HM 0 0 [] (le_n _) ltac:(lia) eq_refl) as [f0 H0].
   exists f0. intros f Hf. specialize (H0 f Hf). rewrite app_nil_r in H0.
   unfold parse_expr. now rewrite H0.
@@ -601,27 +575,27 @@ Qed.
 
 (* the same inside any context that does not continue the expression, at any
    level of the ladder and for any parenthesisation the printer chooses *)
-Corollary expr_roundtrip_ctx e q p rest : wf e = true -> norel e = true ->
+Corollary expr_roundtrip_ctx e q p rest : wf e = true ->
   q <= p -> p <= 17 -> stops q rest = true ->
   exists f0, forall f, f0 <= f -> parse f q false (print p e ++ rest) = Some (strip e, rest).
-Proof. intros Hw Hn. destruct (roundtrip_all e Hw Hn) as [HM _]. apply HM. Qed.
+Proof. intros Hw. destruct (roundtrip_all e Hw) as [HM _]. apply HM. Qed.
 
 (* redundant parentheses never change the tree: two renderings of the same tree parse alike *)
-Corollary paren_insensitive e1 e2 : wf e1 = true -> norel e1 = true -> wf e2 = true -> norel e2 = true ->
+Corollary paren_insensitive e1 e2 : wf e1 = true -> wf e2 = true ->
   strip e1 = strip e2 ->
   exists f0, forall f, f0 <= f -> parse_expr f (print 0 e1) = parse_expr f (print 0 e2).
 Proof.
-  intros W1 N1 W2 N2 E.
-  destruct (expr_roundtrip e1 W1 N1) as [f1 H1]. destruct (expr_roundtrip e2 W2 N2) as [f2 H2].
+  intros W1 W2 E.
+  destruct (expr_roundtrip e1 W1) as [f1 H1]. destruct (expr_roundtrip e2 W2) as [f2 H2].
   exists (Nat.max f1 f2). intros f Hf. rewrite H1, H2 by lia. now rewrite E.
 Qed.
 
-(* otto's defect: a < b < c is read as a < (b < c) *)
+(* relational operators are left-associative (11.8): a < b < c is (a < b) < c, and
+   the right-nested tree needs its parentheses (an instance of the theorem, /repo e62d085) *)
 Definition rel_witness : expr :=
   EBin Lt (EBin Lt (EAtom (AId 1)) (EAtom (AId 2))) (EAtom (AId 3)).
-Lemma relational_chain_refuted :
-  exists e f e', wf e = true /\ parse_expr f (print 0 e) = Some e' /\ e' <> strip e.
-Proof.
-  exists rel_witness, 60, (EBin Lt (EAtom (AId 1)) (EBin Lt (EAtom (AId 2)) (EAtom (AId 3)))).
-  split; [reflexivity|]. split; [vm_compute; reflexivity|]. vm_compute. discriminate.
-Qed.
+Lemma relational_chain_left :
+  parse_expr 60 (print 0 rel_witness) = Some rel_witness /\
+  parse_expr 60 (print 0 (EBin Lt (EAtom (AId 1)) (EBin InstOf (EAtom (AId 2)) (EAtom (AId 3)))))
+    = Some (EBin Lt (EAtom (AId 1)) (EBin InstOf (EAtom (AId 2)) (EAtom (AId 3)))).
+Proof. split; vm_compute; reflexivity. Qed.
